@@ -795,6 +795,16 @@ pub fn gen_world(rng: &mut Rng, o: &WorldOpts) -> Vec<Obj> {
                 conf: if o.low_conf { rng.uniform(0.004, 0.045) as f32 } else if rng.chance(0.3) { if rng.chance(0.3) { rng.uniform(0.004, 0.06) as f32 } else { rng.uniform(0.03, 1.0) as f32 } } else { 1.0 },
                 motion: if o.preset == "stop-and-go" { 3 } else { rng.usize(3) as u8 },
             });
+            // one object in sixteen is parked: it is reported with bit-identical box parameters frame after frame (a
+            // standing object seen by a deterministic detector), so consecutive observations and predictions coincide
+            if !(o.same_region && s > 0) && rng.chance(1.0 / 16.0) {
+                let ob = objs.last_mut().unwrap();
+                ob.motion = 4;
+                ob.vx = 0.0;
+                ob.vy = 0.0;
+                ob.grow = 1.0;
+                ob.dangle = 0.0;
+            }
         }
     }
     objs
@@ -863,12 +873,13 @@ pub fn step_scene(rng: &mut Rng, objs: &mut [Obj], scene: u64, step: usize, o: &
             continue;
         }
         let jit = 0.01 * ob.h;
+        let parked = ob.motion == 4;
         let b = DBox {
-            xc: (ob.x + rng.normal() * jit) as f32,
-            yc: (ob.y + rng.normal() * jit) as f32,
+            xc: (ob.x + if parked { 0.0 } else { rng.normal() * jit }) as f32,
+            yc: (ob.y + if parked { 0.0 } else { rng.normal() * jit }) as f32,
             angle: ob.angle.map(|a| a as f32),
-            aspect: (ob.aspect * rng.uniform(0.99, 1.01)) as f32,
-            h: (ob.h * rng.uniform(0.99, 1.01)) as f32,
+            aspect: (ob.aspect * if parked { 1.0 } else { rng.uniform(0.99, 1.01) }) as f32,
+            h: (ob.h * if parked { 1.0 } else { rng.uniform(0.99, 1.01) }) as f32,
             conf: ob.conf,
         };
         let feature = if o.features && !rng.chance(0.08) {
@@ -1029,8 +1040,8 @@ pub fn gen_cfg(rng: &mut Rng, kind: Kind) -> Cfg {
             min_area: *rng.pick(&[0.0f32, 0.0, 500.0, 1500.0]),
             q_use: *rng.pick(&[0.0f32, 0.3, 0.5]),
             q_collect: *rng.pick(&[0.0f32, 0.5, 0.7]),
-            own_use: *rng.pick(&[0.0f32, 0.0, 0.3, 0.6]),
-            own_collect: *rng.pick(&[0.0f32, 0.0, 0.3, 0.6]),
+            own_use: *rng.pick(&[0.0f32, 0.0, 0.3, 0.6, 0.9]),
+            own_collect: *rng.pick(&[0.0f32, 0.0, 0.3, 0.6, 0.85, 0.95]),
         },
         auto_waste: None,
         sceneless0: rng.chance(0.5),
